@@ -136,12 +136,20 @@ static void guard(FSM::GuardControl& c, int id, int k) {
 	else if (ch >= 2 && ch < 2 + 2 * NS) { request(c, id, ch - 1); }
 	else if (ch >= 2 + 2 * NS) { c.cancelPendingTransition(); note("cancel"); eval_cancelled = true; request(c, id, ch - 1 - 2 * NS); }
 }
+#ifdef ROOT_REPORTS
+// the root reports a task status from its own update() / react(): the active state still receives every callback of the cycle (C05)
+static void report_status(FSM::FullControl& c) { c.succeed(StateID{0}); }
+template <typename TC> static void report_status(TC&) {}
+#endif
 template <typename TC> static void phase(TC& c, int id, int k, const Ev* e) {
 	note(std::string(kname[k]) + num(id));
 	check_control(c, id, k);
 	cycle.push_back(k * 16 + (id + 1));
 	if ((ORACLES & O_CYCLE) && e != cur_event) err(std::string(kname[k]) + " of state " + num(id) + " received a different event object");
 	if ((ORACLES & O_PROTOCOL) && id >= 0 && id != p_entered) err(std::string(kname[k]) + " delivered to state " + num(id) + " while the entered state is " + num(p_entered));
+#ifdef ROOT_REPORTS
+	if (id < 0 && (k == UPDATE || k == REACT)) report_status(c);
+#endif
 	const int ch = choose(1 + 2 * NS);
 	request(c, id, ch);
 }
